@@ -239,13 +239,28 @@ func NewCalculator(
 	if len(weights) > 0 {
 		totalWeight := 0.0
 		for _, weight := range weights {
+			if weight < 0 {
+				return nil, fmt.Errorf("negative weight %v", weight)
+			}
 			totalWeight += weight
 		}
 		averageWeight = totalWeight / float64(len(weights))
+		if !(averageWeight > 0) {
+			return nil, fmt.Errorf("weights %v have no positive mean", weights)
+		}
 	}
 
 	// account for large standard deviations or peaks beyond the window
 	coveredRegion := gauss.CDF(float64(repeatWindow-frequency)) - gauss.CDF(0)
+	// (written so that NaN is refused as well)
+	if !(coveredRegion > 0) {
+		return nil, fmt.Errorf(
+			"repeat window %s with iteration frequency %s covers none of the distribution (peak %s, standard deviation %s)",
+			repeatWindow, frequency, peak, stddev)
+	}
+	if volume < 0 {
+		return nil, fmt.Errorf("negative volume %v", volume)
+	}
 	multiplier /= coveredRegion
 
 	return &Calculator{
